@@ -130,6 +130,9 @@ pub struct Out {
     nontrivial_distinct: std::collections::HashSet<u64>,
     /// applied to every event before it is written (drivers use it to tag events)
     pub post: Option<fn(&mut Value)>,
+    /// context events (e.g. the zone a run of events refers to): written again at the start of every new shard,
+    /// so that a shard is always self-contained however many events a context produces
+    header: Vec<String>,
 }
 
 impl Out {
@@ -148,7 +151,26 @@ impl Out {
             files: Vec::new(),
             nontrivial_distinct: std::collections::HashSet::new(),
             post: None,
+            header: Vec::new(),
         }
+    }
+
+    /// Emit context events now and repeat them at the start of every shard opened until the next call.
+    pub fn set_header(&mut self, evs: Vec<Value>) {
+        self.header.clear();
+        for e in &evs {
+            self.emit(e.clone());
+        }
+        // (serialized after `post` ran on them: emit() stores the last serialization)
+        self.header = evs
+            .into_iter()
+            .map(|mut e| {
+                if let Some(f) = self.post {
+                    f(&mut e);
+                }
+                serde_json::to_string(&e).unwrap()
+            })
+            .collect();
     }
 
     /// Emit one event.  `ev` must be an object with "op" and "cls".
@@ -168,6 +190,13 @@ impl Out {
             let p = self.dir.join(&name);
             self.files.push(p.to_string_lossy().to_string());
             self.w = Some(BufWriter::with_capacity(1 << 20, File::create(p).unwrap()));
+            // a shard that opens in the middle of a context starts with that context
+            let w = self.w.as_mut().unwrap();
+            for h in &self.header {
+                w.write_all(h.as_bytes()).unwrap();
+                w.write_all(b"\n").unwrap();
+                self.in_shard += 1;
+            }
         }
         let cls = ev["cls"].as_str().unwrap_or("plain").to_string();
         let s = serde_json::to_string(&ev).unwrap();
